@@ -1,8 +1,9 @@
 """C11 — carbon copies are trusted only when they come from the user's own bare JID."""
 from .. import cfgx
 from ..build import AnalysisBroken
+from ..effects import classify_use
 
-UNITS = ['client/QXmppCarbonManager.cpp', 'client/QXmppCarbonManagerV2.cpp', 'client/QXmppClient.cpp', 'server/QXmppIncomingClient.cpp']
+UNITS = ['client/QXmppCarbonManager.cpp', 'client/QXmppCarbonManagerV2.cpp', 'client/QXmppClient.cpp', 'server/QXmppIncomingClient.cpp', 'client/QXmppConfiguration.cpp']
 
 MANAGERS = {
     'QXmppCarbonManager::handleStanza': ['QXmppCarbonManager::messageSent', 'QXmppCarbonManager::messageReceived'],
@@ -301,6 +302,7 @@ def run(prog, run):
                       'not the sender on the wire (a wrapper without from is taken for one from the own account)' % (f.display()[:60], f.strval(f.nodes[i]['args'][0])))
     else:
         run.ok(r6, 'src/client', 'no setAttribute("from"/"to") in the client library (%d stamping sites in the server component seen as control)' % len(server_sites))
+    r7_own_address(prog, run)
     if run.tier == 'thorough':
         r5 = run.rule('C11.R5', 'no other function in the library unwraps a carbons-namespaced child into a message', floor=2)
         for f in prog.fns.values():
@@ -315,3 +317,42 @@ def run(prog, run):
                 run.ok(r5, f.loc(), '%s is a checked manager' % f.qname, nontrivial=False)
             else:
                 run.violation(r5, 'unwrapper#' + f.outer_name(), f.loc(), '%s reads a carbons child and parses a message outside the checked managers' % f.display())
+
+
+def r7_own_address(prog, run):
+    """what the managers compare the sender with is the account address as configured now"""
+    from ..effects import field_uses
+    rid = run.rule('C11.R7', 'configuration().jidBare() - the value the sender is compared with - is computed from the configured user and domain at the time of the call; if it is '
+                             'served from a cached member, every function that writes the user or the domain also invalidates that member', floor=1)
+    jb = prog.fn('QXmppConfiguration::jidBare')
+    run.instance(rid)
+    reads, writes = set(), set()
+    for i, n in enumerate(jb.nodes):
+        if n['k'] == 'mem' and (n.get('f') or '').startswith('QXmppConfigurationPrivate::'):
+            k, h = classify_use(jb, i)
+            (writes if k in ('write', 'addr') else reads).add(n['f'])
+    sources = reads - writes
+    if not sources:
+        raise AnalysisBroken('C11.R7: QXmppConfiguration::jidBare reads no configuration member')
+    if not writes:
+        run.ok(rid, jb.loc(), 'jidBare() is computed from %s on every call' % ', '.join(sorted(x.split('::')[-1] for x in sources)))
+        return
+    bad = []
+    setters = {}
+    for src in sorted(sources):
+        for g, i, k, h in field_uses(prog, src):
+            if k in ('write', 'addr') and h != 'constructor initialiser' and g.id != jb.id and not g.qname.split('::')[-1].startswith(('QXmppConfiguration', '~', 'operator=')):
+                setters.setdefault(g.id, (g, i, src))
+    for g, i, src in setters.values():
+        for c in sorted(writes):
+            inval = [j for gg, j, k, h in field_uses(prog, c, [g]) if k in ('write', 'addr')]
+            if not inval:
+                bad.append((g, i, src, c))
+    if bad:
+        g, i, src, c = bad[0]
+        run.violation(rid, 'jidBare#stale-cache#%s' % g.qname.split('::')[-1], g.loc(i),
+                      'jidBare() answers from the cached member %s, but %s changes %s without invalidating it: after that call the carbon managers compare senders with the previous '
+                      'account address (a foreign sender is trusted, the own one rejected)' % (c.split('::')[-1], g.qname, src.split('::')[-1]))
+    else:
+        run.ok(rid, jb.loc(), 'jidBare() is cached in %s; all %d writers of %s invalidate it' % (', '.join(sorted(x.split('::')[-1] for x in writes)), len(setters),
+                                                                                              '/'.join(sorted(x.split('::')[-1] for x in sources))))
